@@ -9,6 +9,7 @@ An atom is a JSON-able dict {"k": kind, ...}.
 """
 import struct
 
+from .pyext4 import crc
 from .pyext4 import image as I
 
 # ---------------------------------------------------------------------------------------
@@ -475,7 +476,43 @@ def csum_mode(sb):
 def feature_class(sb):
     """short class of the filesystem an invocation ran on, part of e2fsck-fn keys"""
     out = [csum_mode(sb)]
-    for f in ("orphan_file", "bigalloc"):
+    for f in ("orphan_file", "bigalloc", "inline_data", "ea_inode"):
         if has(sb, f):
             out.append(f)
     return ",".join(out)
+
+
+ORPHAN_BLOCK_MAGIC = 0x0B10CA04
+
+
+def orphan_file_problems(img):
+    """The blocks of the orphan file end in {magic, checksum}; with metadata_csum the checksum
+    is crc32c(seed, inode number, generation, physical block (64 bit), entries).  vf/pyext4/
+    check.py does not look at this object type, and checksum rewrites have to cover it."""
+    sb = img.sb
+    if not sb.has("orphan_file") or not sb.s_orphan_file_inum:
+        return []
+    out = []
+    try:
+        ino = img.inode(sb.s_orphan_file_inum)
+        mapping, _ = img.block_map(ino)
+    except I.FormatError as e:
+        return ["F4:orphan-file-unreadable"]
+    nblocks = (ino.size + img.bs - 1) // img.bs
+    for l, p, c, un in mapping:
+        for k in range(c):
+            if l + k >= nblocks or p + k >= img.blocks_count:
+                continue
+            buf = img.blk(p + k)
+            magic, stored = struct.unpack_from("<II", buf, img.bs - 8)
+            if magic != ORPHAN_BLOCK_MAGIC:
+                out.append("F4:orphan-block-magic")
+                continue
+            if img.has_csum:
+                v = crc.crc32c(sb.csum_seed(), struct.pack("<I", ino.ino))
+                v = crc.crc32c(v, struct.pack("<I", ino.generation))
+                v = crc.crc32c(v, struct.pack("<Q", p + k))
+                v = crc.crc32c(v, bytes(buf[:img.bs - 8]))
+                if v != stored:
+                    out.append("F5:orphan-block-csum")
+    return sorted(set(out))
